@@ -18,8 +18,8 @@ Proof. reflexivity. Qed.
    table outside of one *)
 Theorem c20_source_arrival_atomic :
   JRGen.Extracted.reader_rendezvous_sections =
-    [["ch, found := readers[u]"; "if !found { ch = make(<*ast.ChanType>); readers[u] = ch }"];
-     ["ch, found := readers[u]"; "if !found { ch = make(<*ast.ChanType>); readers[u] = ch }"]]%string /\
+    [["ch, found := readers[u]"; "if !found { ch = make(chan *waitReadCloser); readers[u] = ch }"];
+     ["ch, found := readers[u]"; "if !found { ch = make(chan *waitReadCloser); readers[u] = ch }"]]%string /\
   JRGen.Extracted.reader_table_stores_outside_lock = 0%Z.
 Proof. split; reflexivity. Qed.
 
